@@ -57,6 +57,6 @@ let check inp obs =
    not tail recursive, so re-execute under a large stack *)
 let () =
   if Sys.getenv_opt "VERIF_BIGSTACK" = None then
-    exit (Sys.command ("ulimit -s 4000000 2>/dev/null || ulimit -s unlimited 2>/dev/null; VERIF_BIGSTACK=1 exec "
+    exit (Sys.command ("ulimit -s 4000000 2>/dev/null || ulimit -s unlimited 2>/dev/null; ulimit -v 12000000 2>/dev/null; VERIF_BIGSTACK=1 exec "
                        ^ Filename.quote Sys.executable_name))
   else run_driver check
